@@ -148,7 +148,9 @@ def matrix_case(case):
         for i in range(start, len(calls)):
             lines.append(f'print "@{i} " . typeof({calls[i][1]});')
         prog = "\n".join(lines)
-        r = R.mlr(["--ijson", "--ojson", "put", "-q", prog], stdin=inp, env=ENV, cpu_s=10, watchdog=60, as_bytes=3 << 30)
+        # the program goes through a file: a thorough-tier case holds > 10^4 calls, more than one command-line word may carry
+        r = R.mlr(["--ijson", "--ojson", "put", "-q", "-f", "prog.mlr"], stdin=inp, files={"prog.mlr": prog}, env=ENV,
+                  cpu_s=(10 if len(calls) < 3000 else 60), watchdog=(60 if len(calls) < 3000 else 180), as_bytes=3 << 30)
         done = [int(m) for m in re.findall(r"^@(\d+) ", r.out, re.M)]
         last = max(done) if done else start - 1
         bump(res, "matrix_processes")
@@ -241,7 +243,9 @@ def matrix_cases(chk):
                             t = [(k, KINDS[k][0]) for k in ps]
                             t.insert(pos, (hk, hv))
                             tuples.append(t)
-                    cases.append({"name": name, "arity": arity, "group": f"hostile@{pos}", "tuples": tuples})
+                    for part in range(0, len(tuples), 1500):     # thorough arity 3: ~14500 calls per position, in slices
+                        cases.append({"name": name, "arity": arity, "group": f"hostile@{pos}" + (f"/{part // 1500}" if len(tuples) > 1500 else ""),
+                                      "tuples": tuples[part:part + 1500]})
     chk.extra["functions_in_matrix"] = nf
     chk.extra["functions_skipped_side_effects"] = sorted(SKIP_FUNCS)
     return cases
